@@ -81,6 +81,22 @@ def corpus(ctx, rng):
                 if got:
                     jobs.append({"what": got[1], "text": gen.pdb_text(got[0]), "args": [f"--ff={ffs[k % 6]}"] + ([] if k % 4 else ["--noopt"])})
                     k += 1
+    # inputs that already carry their hydrogens, with a titration method (hydrogens are stripped and built again after the
+    # first debump pass) and without
+    tit = ["--titration-state-method=propka"]
+    for rep in range(8 if ctx.quick else 60):
+        seq = [rng.choice(gen.AMINO) for _ in range(rng.randint(3, 6))]
+        seq[rng.randrange(len(seq))] = rng.choice(["ASN", "GLN", "HIS", "LYS", "ARG", "MET", "GLU", "SER"])
+        chains, what = gen.protonated_with_clashes(rng, seq)
+        jobs.append({"what": what, "text": gen.pdb_text(chains), "args": [f"--ff={ffs[rep % 6]}"] + (tit + [f"--with-ph={rng.choice([5, 7, 9])}"] if rep % 4 != 3 else [])})
+    # ... and as a history: the hydrogen-bond environments and a structure run once, their output run again with a titration method
+    for rep in range(1 if ctx.quick else 6):
+        for name, chains in environments(rng):
+            jobs.append({"what": f"env {name}#{rep} run twice, the second time titrated", "text": gen.pdb_text(chains), "pre": ["--ff=AMBER", "--noopt"],
+                         "args": ["--ff=AMBER"] + tit + [f"--with-ph={rng.choice([6, 7, 8])}"]})
+    for f in (["1AJJ.pdb"] if ctx.quick else ["1AJJ.pdb", "1AFS.pdb", "1BX8.pdb", "cterm_hid.pdb"]):
+        jobs.append({"what": f"{f} run twice, the second time titrated", "text": open(os.path.join(DATA, f)).read(), "pre": ["--ff=AMBER", "--noopt"],
+                     "args": ["--ff=AMBER"] + tit + ["--with-ph=7"]})
     from .. import corpus as shared
     jobs += shared.variants(ctx.quick, rng)
     for kind, s in (("D", "ACGT"), ("R", "ACGU")):
@@ -105,6 +121,13 @@ def _job(job):
     wd = os.path.join(core.VERIF, ".work", f"c05-{os.getpid()}")
     os.makedirs(wd, exist_ok=True)
     open(os.path.join(wd, "in.pdb"), "w").write(job["text"])
+    if job.get("pre") is not None:
+        # a history of two runs: the structure pdb2pqr wrote (all hydrogens present) is the input of the run that is judged
+        r0 = runner.run(job["pre"] + [f"--pdb-output={os.path.join(wd, 'pre.pdb')}", os.path.join(wd, "in.pdb"), os.path.join(wd, "pre.pqr")])
+        if not r0["ok"] or not os.path.exists(os.path.join(wd, "pre.pdb")):
+            shutil.rmtree(wd, ignore_errors=True)
+            return {"ok": False, "exc": "first run: " + r0["exc_type"], "paths": [], "geo": []}
+        shutil.copy(os.path.join(wd, "pre.pdb"), os.path.join(wd, "in.pdb"))
     r = runner.run(job["args"] + [os.path.join(wd, "in.pdb"), os.path.join(wd, "o.pqr")], groups={"atoms", "stages", "placement", "log"})
     tr = r["tracer"]
     out = {"ok": r["ok"], "exc": r["exc_type"], "paths": [], "geo": []}
